@@ -522,4 +522,51 @@ theorem mkArgs_get (ps : Pairs) (k : Str) :
   | none => rw [hf] at this; simp at this; simp [← this]
   | some e => rw [hf] at this; simp at this; simp [this.1, this.2]
 
+/-! ### `Request.read` in pieces -/
+
+theorem reqRead_conserve (s : RdSt) (k : Option Nat) : (reqRead s k).1 ++ (reqRead s k).2.src = s.src := by
+  simp only [reqRead, List.take_append_drop]
+
+theorem reqRead_len (s : RdSt) (k : Option Nat) :
+    (reqRead s k).1.length + (reqRead s k).2.todo = s.todo := by
+  have : (reqRead s k).1.length ≤ s.todo := by
+    simp only [reqRead, List.length_take]
+    cases k <;> simp <;> omega
+  show (reqRead s k).1.length + (s.todo - (reqRead s k).1.length) = s.todo
+  omega
+
+/-- **the pieces are consecutive pieces of the stream, and together never exceed the declared length** -/
+theorem reqReads_spec (s : RdSt) (ks : List (Option Nat)) :
+    (reqReads s ks).1.flatten ++ (reqReads s ks).2.src = s.src ∧
+    (reqReads s ks).1.flatten.length + (reqReads s ks).2.todo = s.todo := by
+  induction ks generalizing s with
+  | nil => simp [reqReads]
+  | cons k ks ih =>
+    obtain ⟨h1, h2⟩ := ih (reqRead s k).2
+    have c1 := reqRead_conserve s k
+    have c2 := reqRead_len s k
+    simp only [reqReads, List.flatten_cons, List.append_assoc, List.length_append]
+    refine ⟨by rw [h1, c1], by omega⟩
+
+/-- what a handler gets by any sequence of `req.read` calls is a prefix of the first `Content-Length` bytes -/
+theorem reqReads_prefix (cl : Nat) (src : Bytes) (ks : List (Option Nat)) :
+    (reqReads ⟨cl, src⟩ ks).1.flatten <+: src.take cl := by
+  obtain ⟨h1, h2⟩ := reqReads_spec ⟨cl, src⟩ ks
+  simp only at h1 h2
+  have hl : (reqReads ⟨cl, src⟩ ks).1.flatten.length ≤ cl := by omega
+  generalize (reqReads ⟨cl, src⟩ ks).1.flatten = a at h1 hl
+  generalize (reqReads ⟨cl, src⟩ ks).2.src = b at h1
+  subst h1
+  have e : a = (a ++ b).take a.length := by simp
+  have := List.take_prefix_take_left (l := a ++ b) hl
+  rw [← e] at this
+  exact this
+
+/-- a read without size delivers all that is left of the declared body (when the stream has it) -/
+theorem reqRead_all (s : RdSt) (h : s.todo ≤ s.src.length) :
+    (reqRead s none).1 = s.src.take s.todo ∧ (reqRead s none).2.todo = 0 := by
+  simp [reqRead, List.length_take]
+  omega
+
+
 end Poor.Query
